@@ -5,10 +5,21 @@
 // verifyTimestamp option x validity windows of (leaf, CA) x signing time x expiry x
 // countersignature state (forged offline RFC 3161 tokens) x TSA revocation answer x
 // format, through the real verifier; reference clock model of DESIGN.md A.2.
+//
+// Secondary dimensions (none of them enters the reference model - the statement does not mention them, so the
+// verdicts must not depend on them): the ORDER of the policy's trust store list (where the tsa store stands, what
+// stands around it), the UTC offset the envelope's times are written with (JWS: RFC 3339 with the signer's offset),
+// the verifier's own local time zone (time.Local, sequential family), a chain with an INTERMEDIATE certificate
+// that has its own validity window, and signing times two hours outside a window edge (so that a shift by a zone
+// offset crosses the edge).
 package main
 
 import (
 	"context"
+	"os"
+	"syscall"
+	"encoding/base64"
+	"encoding/json"
 	"errors"
 	"fmt"
 	"sort"
@@ -45,7 +56,12 @@ var windows = []window{{"valid-now", -10 * day, 10 * day}, {"expired-1d-ago", -1
 var signTimes = []struct {
 	Name string
 	Off  time.Duration
-}{{"-5d", -5 * day}, {"-20d", -20 * day}, {"-12h", -12 * time.Hour}, {"+5d", 5 * day}}
+}{{"-5d", -5 * day}, {"-20d", -20 * day}, {"-12h", -12 * time.Hour}, {"+5d", 5 * day},
+	// secondary (index >= firstEdgeSign): two hours before the start / after the end of the valid-now window (and two
+	// hours before the start of the expired-1d-ago window)
+	{"-10d-2h", -10*day - 2*time.Hour}, {"+10d+2h", 10*day + 2*time.Hour}}
+
+const firstEdgeSign = 4
 
 var expiries = []struct {
 	Name string
@@ -82,6 +98,34 @@ var tokens = []tokenKind{
 	{Name: "token@-5d,genuine-token-of-another-signature", Present: true, Gen: -5 * day, Acc: 1, Wrong: true, CopyOfPrior: true},
 }
 
+// Order of the policy's trustStores list. S = the store of the signing scheme's type (ca:s / signingAuthority:s),
+// T = the tsa store (only when the tsa policy lists one), O = a store of the OTHER signing type holding an unrelated
+// root (and, like S, every TSA root: only tsa stores may anchor a countersignature).
+var layouts = []string{"S T", "T S", "S T O", "O T S"}
+
+// UTC offset with which the envelope's signing time and expiry are written (same instants). JWS only: COSE
+// carries Unix seconds.
+var envZones = []struct {
+	Name string
+	Off  time.Duration
+}{{"utc", 0}, {"+08:00", 8 * time.Hour}, {"-09:30", -(9*time.Hour + 30*time.Minute)}}
+
+// The verifier's own local time zone (time.Local while the judged call runs). 0 = whatever the machine has.
+var verifierZones = []struct {
+	Name string
+	Off  time.Duration
+}{{"machine-default", 0}, {"+05:45", 5*time.Hour + 45*time.Minute}, {"-08:00", -8 * time.Hour}}
+
+// Intermediate certificate between leaf and root: none (chain of two), or one with its own validity window.
+var mids = []string{"no-intermediate", "intermediate-valid-now", "intermediate-expired-1d-ago", "intermediate-starts-in-1d"}
+
+func midWindow(m int) *window {
+	if m == 0 {
+		return nil
+	}
+	return &windows[m-1]
+}
+
 var tsaPolicies = []string{"tsa-not-listed", "tsa-listed-trusted-root", "tsa-listed-store-unloadable", "tsa-listed-other-root"}
 var options = []trustpolicy.TimestampOption{"", trustpolicy.OptionAlways, trustpolicy.OptionAfterCertExpiry}
 var tsaRevs = []string{"tsa-rev-ok", "tsa-rev-revoked", "tsa-rev-unknown", "tsa-rev-validator-error"}
@@ -100,50 +144,109 @@ type caseT struct {
 	// Prior 1: the same verifier instance verified, immediately before, a signature of the same chain, scheme and
 	// format that is fine on every clock (signed 5 days ago, no expiry, valid countersignature at -5d).
 	Prior int `json:"prior"`
+	// secondary dimensions (see the header comment); all zero = the conventional case
+	Layout int `json:"store_list_layout"`
+	Zone   int `json:"envelope_zone"`
+	Mid    int `json:"intermediate"`
+	VZone  int `json:"verifier_zone"`
+}
+
+func (c caseT) secondary() bool {
+	return c.Layout != 0 || c.Zone != 0 || c.Mid != 0 || c.VZone != 0 || c.Sign >= firstEdgeSign
+}
+
+// storeList renders the trustStores list of the case (and says which entries it uses).
+func (c caseT) storeList() []string {
+	caType := []string{"ca", "signingAuthority"}[c.Scheme]
+	other := []string{"signingAuthority", "ca"}[c.Scheme]
+	var out []string
+	for _, f := range strings.Fields(layouts[c.Layout]) {
+		switch f {
+		case "S":
+			out = append(out, caType+":s")
+		case "T":
+			if c.TSAPol != 0 {
+				out = append(out, "tsa:t")
+			}
+		case "O":
+			out = append(out, other+":o")
+		}
+	}
+	return out
 }
 
 func (c caseT) String() string {
-	return map[int]string{0: "", 1: "[after a fine signature on the same verifier] "}[c.Prior] + fmt.Sprintf("%s %s verifyTimestamp=%q leaf=%s ca=%s signed@%s %s %s %s %s", []string{"x509", "signingAuthority"}[c.Scheme], tsaPolicies[c.TSAPol], options[c.Option], windows[c.LeafW].Name, windows[c.CAW].Name, signTimes[c.Sign].Name, expiries[c.Expiry].Name, tokens[c.Token].Name, tsaRevs[c.TSARev], []string{"jws", "cose"}[c.Format])
+	sec := ""
+	if c.secondary() {
+		sec = fmt.Sprintf(" | trustStores=%v envelope-times-written-in=%s %s verifier-zone=%s", c.storeList(), envZones[c.Zone].Name, mids[c.Mid], verifierZones[c.VZone].Name)
+	}
+	return map[int]string{0: "", 1: "[after a fine signature on the same verifier] "}[c.Prior] + fmt.Sprintf("%s %s verifyTimestamp=%q leaf=%s ca=%s signed@%s %s %s %s %s", []string{"x509", "signingAuthority"}[c.Scheme], tsaPolicies[c.TSAPol], options[c.Option], windows[c.LeafW].Name, windows[c.CAW].Name, signTimes[c.Sign].Name, expiries[c.Expiry].Name, tokens[c.Token].Name, tsaRevs[c.TSARev], []string{"jws", "cose"}[c.Format]) + sec
 }
 
 type world struct {
 	now    time.Time
-	chains map[[2]int]*pki.Chain
+	chains map[[3]int]*pki.Chain
 	auth   []*tsa.Authority
+	spare  *pki.Cert // an unrelated root for the store of the other signing type
 	desc   ocispec.Descriptor
 	envs   sync.Map
 	mu     sync.Mutex
 
 	observed, controls, controlsOK atomic.Int64 // cases observable through the all-log level; positive controls
+	forgeBroken                    atomic.Value // string: a zoned envelope could not be built as intended
 }
 
-func (w *world) chain(lw, cw int) *pki.Chain {
+// chain returns the signing chain leaf <- [intermediate <-] root with the given validity windows (mid 0: no
+// intermediate).
+func (w *world) chain(lw, mid, cw int) *pki.Chain {
 	w.mu.Lock()
 	defer w.mu.Unlock()
-	if c, ok := w.chains[[2]int{lw, cw}]; ok {
+	if c, ok := w.chains[[3]int{lw, mid, cw}]; ok {
 		return c
 	}
 	at := func(wd window) (time.Time, time.Time) { return w.now.Add(wd.From), w.now.Add(wd.To) }
 	lf, lt := at(windows[lw])
 	cf, ct := at(windows[cw])
-	c := pki.NewChain(pki.ChainOpts{Len: 2, Prefix: fmt.Sprintf("c06-%d-%d", lw, cw), CAIdx: 6,
+	o := pki.ChainOpts{Len: 2, Prefix: fmt.Sprintf("c06-%d-%d-%d", lw, mid, cw), CAIdx: 6,
 		Leaf: &pki.Tmpl{Subject: pki.Name("c06 leaf"), NotBefore: lf, NotAfter: lt},
-		CAs:  []*pki.Tmpl{{Subject: pki.Name(fmt.Sprintf("c06 root %d", cw)), NotBefore: cf, NotAfter: ct, PathLen: -1}}})
-	w.chains[[2]int{lw, cw}] = c
+		CAs:  []*pki.Tmpl{{Subject: pki.Name(fmt.Sprintf("c06 root %d", cw)), NotBefore: cf, NotAfter: ct, PathLen: -1}}}
+	if mw := midWindow(mid); mw != nil {
+		mf, mt := at(*mw)
+		o.Len = 3
+		o.CAs = append([]*pki.Tmpl{{Subject: pki.Name(fmt.Sprintf("c06 intermediate %d", mid)), NotBefore: mf, NotAfter: mt, PathLen: -1}}, o.CAs...)
+	}
+	c := pki.NewChain(o)
+	w.chains[[3]int{lw, mid, cw}] = c
 	return c
 }
 
 func (w *world) envelope(c caseT) []byte {
-	type k struct{ s, lw, cw, st, ex, tk, f int }
-	key := k{c.Scheme, c.LeafW, c.CAW, c.Sign, c.Expiry, c.Token, c.Format}
+	type k struct{ s, lw, mid, cw, st, ex, tk, f, z int }
+	key := k{c.Scheme, c.LeafW, c.Mid, c.CAW, c.Sign, c.Expiry, c.Token, c.Format, c.Zone}
 	if b, ok := w.envs.Load(key); ok {
 		return b.([]byte)
 	}
-	ch := w.chain(c.LeafW, c.CAW)
+	ch := w.chain(c.LeafW, c.Mid, c.CAW)
 	sp := forge.Spec{Format: forge.Formats[c.Format], Chain: ch.X509(), Key: ch.Leaf().Key, Payload: forge.PayloadFor(w.desc),
 		Scheme: []string{forge.SchemeX509, forge.SchemeSA}[c.Scheme], SigningTime: w.now.Add(signTimes[c.Sign].Off)}
 	if e := expiries[c.Expiry]; e.Set {
 		sp.Expiry = w.now.Add(e.Off)
+	}
+	// the same instants written with another UTC offset, as a signer in that zone writes them (JWS: RFC 3339 text;
+	// the forge lets a later attribute of the same name replace the value it wrote in UTC)
+	zoned := map[string]string{}
+	if c.Zone != 0 && c.Format == 0 {
+		z := envZones[c.Zone]
+		loc := time.FixedZone(z.Name, int(z.Off/time.Second))
+		zoned[[]string{"io.cncf.notary.signingTime", "io.cncf.notary.authenticSigningTime"}[c.Scheme]] = sp.SigningTime.In(loc).Format(time.RFC3339)
+		if !sp.Expiry.IsZero() {
+			zoned["io.cncf.notary.expiry"] = sp.Expiry.In(loc).Format(time.RFC3339)
+		}
+		for _, name := range []string{"io.cncf.notary.signingTime", "io.cncf.notary.authenticSigningTime", "io.cncf.notary.expiry"} {
+			if v, ok := zoned[name]; ok {
+				sp.Ext = append(sp.Ext, forge.Attr{Key: name, Value: v})
+			}
+		}
 	}
 	if tk := tokens[c.Token]; tk.Present {
 		sp.Timestamp = func(sig []byte) []byte {
@@ -151,7 +254,7 @@ func (w *world) envelope(c caseT) []byte {
 				return []byte{0x30, 0x03, 0x02, 0x01, 0x01}
 			}
 			if tk.CopyOfPrior {
-				prior := w.envelope(caseT{Scheme: c.Scheme, LeafW: c.LeafW, CAW: c.CAW, Token: 1, Format: c.Format})
+				prior := w.envelope(caseT{Scheme: c.Scheme, LeafW: c.LeafW, Mid: c.Mid, CAW: c.CAW, Token: 1, Format: c.Format})
 				if ref, err := refsig.Verify(forge.Formats[c.Format], prior); err == nil {
 					return w.auth[0].Token(tsa.Opts{Message: ref.SigValue, GenTime: w.now.Add(tk.Gen), AccuracySeconds: tk.Acc})
 				}
@@ -160,6 +263,19 @@ func (w *world) envelope(c caseT) []byte {
 		}
 	}
 	b := forge.Build(sp)
+	if len(zoned) > 0 {
+		// the envelope must really carry the zoned texts (and each header once)
+		var prot map[string]any
+		pj, err := base64.RawURLEncoding.DecodeString(forge.SplitJWS(b).Protected)
+		if err == nil {
+			err = json.Unmarshal(pj, &prot)
+		}
+		for name, v := range zoned {
+			if err != nil || prot[name] != v || strings.Count(string(pj), `"`+name+`":`) != 1 {
+				w.forgeBroken.Store(fmt.Sprintf("envelope does not carry %s=%s (protected header %s, err %v)", name, v, pj, err))
+			}
+		}
+	}
 	w.envs.Store(key, b)
 	return b
 }
@@ -180,6 +296,9 @@ func (w *world) modelAt(c caseT, nowOff time.Duration) expect {
 	ex := expiries[c.Expiry]
 	e.ExpiryFails = ex.Set && ex.Off <= nowOff
 	wins := []window{windows[c.LeafW], windows[c.CAW]}
+	if mw := midWindow(c.Mid); mw != nil {
+		wins = append(wins, *mw)
+	}
 	inside := func(lo, hi time.Duration) bool {
 		for _, wd := range wins {
 			if lo < wd.From || hi > wd.To {
@@ -235,27 +354,36 @@ func (w *world) modelAt(c caseT, nowOff time.Duration) expect {
 var ctx = context.Background()
 
 func (w *world) run(r *hx.Run, c caseT) {
+	if c.VZone != 0 {
+		// the verifier's own time zone: process-global, so these cases run one at a time (main keeps them out of the
+		// parallel part). time.Now() inside the verifier (through the clock seam too) and every time decoded from
+		// Unix seconds then carry this location.
+		z := verifierZones[c.VZone]
+		old := time.Local
+		time.Local = time.FixedZone(z.Name, int(z.Off/time.Second))
+		defer func() { time.Local = old }()
+	}
 	caType := []string{"ca", "signingAuthority"}[c.Scheme]
-	ch := w.chain(c.LeafW, c.CAW)
-	ts := mocks.NewTrustStore().Put(caType, "s", ch.Root().Cert)
-	stores := []string{caType + ":s"}
+	otherType := []string{"signingAuthority", "ca"}[c.Scheme]
+	ch := w.chain(c.LeafW, c.Mid, c.CAW)
+	ts := mocks.NewTrustStore().Put(caType, "s", ch.Root().Cert).Put(otherType, "o", w.spare.Cert)
+	stores := c.storeList()
 	switch c.TSAPol {
 	case 1:
-		stores = append(stores, "tsa:t")
 		ts.Put("tsa", "t", w.auth[0].Root.Cert, w.auth[2].Root.Cert, w.auth[3].Root.Cert)
 	case 2:
-		stores = append(stores, "tsa:t")
 		ts.Errs["tsa:t"] = errors.New("mock: tsa store cannot be loaded")
 	case 3:
-		stores = append(stores, "tsa:t")
 		ts.Put("tsa", "t", w.auth[1].Root.Cert)
 	}
 	if c.TSAPol != 0 {
-		// collision by construction: the store of the signing scheme's type ALSO holds every TSA root. Only tsa stores
-		// may anchor a countersignature, so this changes nothing for a correct verifier - and it lets a verifier that
-		// takes TSA roots from the wrong stores (or from all stores) pass a token the policy's tsa store does not cover.
+		// collision by construction: the store of the signing scheme's type (and the one of the other signing type,
+		// when the list names it) ALSO holds every TSA root. Only tsa stores may anchor a countersignature, so this
+		// changes nothing for a correct verifier - and it lets a verifier that takes TSA roots from the wrong stores
+		// (or from all stores, or from the neighbour in the list) pass a token the policy's tsa store does not cover.
 		for _, a := range w.auth {
 			ts.Put(caType, "s", a.Root.Cert)
+			ts.Put(otherType, "o", a.Root.Cert)
 		}
 	}
 	var rvr []result.Result
@@ -277,7 +405,7 @@ func (w *world) run(r *hx.Run, c caseT) {
 		return
 	}
 	if c.Prior == 1 {
-		pc := caseT{Scheme: c.Scheme, LeafW: c.LeafW, CAW: c.CAW, Token: 1, Format: c.Format}
+		pc := caseT{Scheme: c.Scheme, LeafW: c.LeafW, Mid: c.Mid, CAW: c.CAW, Token: 1, Format: c.Format}
 		r.Eval(1)
 		_, _ = v.Verify(ctx, w.desc, w.envelope(pc), notation.VerifierVerifyOptions{ArtifactReference: "reg.io/r@" + w.desc.Digest.String(), SignatureMediaType: forge.Formats[c.Format]})
 		tsaValidator.Calls = nil
@@ -287,6 +415,9 @@ func (w *world) run(r *hx.Run, c caseT) {
 	bad := func(key, what string) {
 		if c.Prior == 1 {
 			key += ":after-earlier-verification-on-same-verifier"
+		}
+		if c.VZone != 0 {
+			key += ":verifier-in-another-time-zone"
 		}
 		r.Violation(key, what+" | "+c.String(), c)
 	}
@@ -436,7 +567,7 @@ func (w *world) clockBoundaries(r *hx.Run) {
 		for sc := 0; sc < 2; sc++ {
 			c := caseT{Scheme: sc, Expiry: 1, Format: f} // expires in 1 d, leaf and CA valid now
 			caType := []string{"ca", "signingAuthority"}[sc]
-			ch := w.chain(c.LeafW, c.CAW)
+			ch := w.chain(c.LeafW, c.Mid, c.CAW)
 			ts := mocks.NewTrustStore().Put(caType, "s", ch.Root().Cert)
 			sv := trustpolicy.SignatureVerification{VerificationLevel: "strict", Override: map[trustpolicy.ValidationType]trustpolicy.ValidationAction{
 				trustpolicy.TypeAuthenticTimestamp: trustpolicy.ActionLog, trustpolicy.TypeExpiry: trustpolicy.ActionLog, trustpolicy.TypeRevocation: trustpolicy.ActionSkip}}
@@ -524,7 +655,7 @@ func signed(d time.Duration) string {
 
 func (w *world) clockPair(r *hx.Run, c caseT, offs []time.Duration) {
 	caType := []string{"ca", "signingAuthority"}[c.Scheme]
-	ch := w.chain(c.LeafW, c.CAW)
+	ch := w.chain(c.LeafW, c.Mid, c.CAW)
 	ts := mocks.NewTrustStore().Put(caType, "s", ch.Root().Cert)
 	stores := []string{caType + ":s"}
 	if c.TSAPol == 1 {
@@ -629,7 +760,8 @@ func main() {
 	r.Rule = "time-line product: scheme x tsa store in policy x verifyTimestamp x (leaf, CA) validity windows x signing time x expiry x countersignature state x TSA revocation answer x format; quick = every case with at most 5 deviations from the default case, thorough = the full product (minus envelopes core-go cannot parse: expiry not after signing time); one real verifier.Verify per case under an all-log level (+ one under strict); non-trivial = every distinct case (each has its own expected pair of results)"
 	r.Assumptions = []string{"the verification instant is the real clock; every generated instant is >= 1 h away from it, so each case has one outcome whenever it runs", "countersignatures are forged by lib/tsa (offline RFC 3161 authority); tokens from public TSAs are outside the bound", "reference clock model: DESIGN.md appendix A.2 (harness/c06 model())"}
 	now := time.Now().Truncate(time.Second)
-	w := &world{now: now, chains: map[[2]int]*pki.Chain{}}
+	w := &world{now: now, chains: map[[3]int]*pki.Chain{}}
+	w.spare = pki.NewChain(pki.ChainOpts{Len: 2, Prefix: "c06-unrelated", CAIdx: 7}).Root()
 	w.desc = ocispec.Descriptor{MediaType: "application/vnd.oci.image.manifest.v1+json", Digest: digest.FromString("c06"), Size: 3}
 	nb, na := now.Add(-30*day), now.Add(30*day)
 	w.auth = []*tsa.Authority{tsa.New("trusted", 0, tsa.LeafProper, nb, na), tsa.New("untrusted", 1, tsa.LeafProper, nb, na), tsa.New("noncritical", 2, tsa.LeafEKUNotCritical, nb, na), tsa.New("codesigning", 3, tsa.LeafCodeSigning, nb, na)}
@@ -648,47 +780,79 @@ func main() {
 		}
 		r.Finish()
 	}
-	sizes := []int{2, len(tsaPolicies), len(options), len(windows), len(windows), len(signTimes), len(expiries), len(tokens), len(tsaRevs), 2}
-	maxDev := 5
+	// dimension 9 (format) is free; dimensions 10.. and the edge signing times are SECONDARY: a case in which one of
+	// them deviates is enumerated up to maxDevSec deviations in total
+	sizes := []int{2, len(tsaPolicies), len(options), len(windows), len(windows), len(signTimes), len(expiries), len(tokens), len(tsaRevs), 2, len(layouts), len(envZones), len(mids)}
+	const dimFormat = 9
+	maxDev, maxDevSec := 5, 4
 	if r.Thorough() {
-		maxDev = len(sizes)
+		maxDev, maxDevSec = len(sizes), 5
 	}
-	var cases []caseT
-	var rec func(i int, cur []int, dev int)
-	rec = func(i int, cur []int, dev int) {
+	var cases, zoneCases []caseT
+	var rec func(i int, cur []int, dev int, sec bool)
+	rec = func(i int, cur []int, dev int, sec bool) {
 		if i == len(sizes) {
-			c := caseT{Scheme: cur[0], TSAPol: cur[1], Option: cur[2], LeafW: cur[3], CAW: cur[4], Sign: cur[5], Expiry: cur[6], Token: cur[7], TSARev: cur[8], Format: cur[9]}
+			c := caseT{Scheme: cur[0], TSAPol: cur[1], Option: cur[2], LeafW: cur[3], CAW: cur[4], Sign: cur[5], Expiry: cur[6], Token: cur[7], TSARev: cur[8], Format: cur[9], Layout: cur[10], Zone: cur[11], Mid: cur[12]}
 			if e := expiries[c.Expiry]; e.Set && e.Off <= signTimes[c.Sign].Off {
 				return // expiry not after the signing time: refused as malformed before any clock is consulted
+			}
+			if c.Zone != 0 && c.Format != 0 {
+				return // COSE carries Unix seconds: the same envelope as zone 0
+			}
+			for l := 0; l < c.Layout; l++ {
+				o := c
+				o.Layout = l
+				if fmt.Sprint(o.storeList()) == fmt.Sprint(c.storeList()) {
+					return // without a tsa store this layout is the same list as an earlier one
+				}
 			}
 			cases = append(cases, c)
 			// the same case after an unproblematic signature on the same verifier instance (cases with <= 3 deviations)
 			if dev >= 1 && dev <= 3 {
 				c.Prior = 1
 				cases = append(cases, c)
+				c.Prior = 0
+			}
+			// the same case with the verifier living in another time zone (cases with <= 2 deviations; run one at a time)
+			if dev <= 2 {
+				for vz := 1; vz < len(verifierZones); vz++ {
+					c.VZone = vz
+					zoneCases = append(zoneCases, c)
+				}
 			}
 			return
 		}
 		for v := 0; v < sizes[i]; v++ {
-			d := dev
-			if v != 0 && i != len(sizes)-1 {
+			d, s := dev, sec
+			if v != 0 && i != dimFormat {
 				d++
+				if i > dimFormat || (i == 5 && v >= firstEdgeSign) {
+					s = true
+				}
 			}
-			if d > maxDev {
+			if d > maxDev || (s && d > maxDevSec) {
 				continue
 			}
-			rec(i+1, append(cur, v), d)
+			rec(i+1, append(cur, v), d, s)
 		}
 	}
-	rec(0, nil, 0)
+	rec(0, nil, 0, false)
 	// pre-build the chains sequentially (deterministic serial numbers do not matter, but avoid lock contention)
 	for lw := range windows {
-		for cw := range windows {
-			w.chain(lw, cw)
+		for mid := range mids {
+			for cw := range windows {
+				w.chain(lw, mid, cw)
+			}
 		}
 	}
 	r.Extra["cases"] = len(cases)
 	r.Extra["max_deviations"] = maxDev
+	r.Extra["max_deviations_when_a_secondary_dimension_deviates"] = maxDevSec
+	r.Extra["verifier_zone_cases"] = len(zoneCases)
+	r.Extra["store_list_layouts"] = fmt.Sprint(layouts)
+	r.Extra["envelope_zones"] = fmt.Sprint(envZones)
+	r.Extra["verifier_zones"] = fmt.Sprint(verifierZones)
+	r.Extra["intermediate"] = fmt.Sprint(mids)
 	// positive control: the default case and the fully valid countersignature case must pass
 	ctrl := []caseT{{}, {TSAPol: 1, Token: 1}, {TSAPol: 1, Token: 1, LeafW: 1}, {Scheme: 1}}
 	for _, c := range ctrl {
@@ -703,8 +867,23 @@ func main() {
 			r.Sample(map[string]any{"case": cases[i].String(), "model": w.model(cases[i])})
 		}
 	}, nil)
+	cpu := func(tag string) {
+		var ru syscall.Rusage
+		syscall.Getrusage(syscall.RUSAGE_SELF, &ru)
+		fmt.Fprintf(os.Stderr, "PHASE %s cpu=%.1fs wall=%s\n", tag, float64(ru.Utime.Sec)+float64(ru.Utime.Usec)/1e6+float64(ru.Stime.Sec), time.Since(now))
+	}
+	cpu("parallel")
+	// sequential: the verifier's time zone (time.Local) is process-global
+	for _, c := range zoneCases {
+		w.run(r, c)
+	}
+	if s, _ := w.forgeBroken.Load().(string); s != "" {
+		r.Infra("zoned envelope: %s", s)
+	}
+	cpu("zone")
 	// sequential: the displaced clock is process-global
 	w.clockFamily(r)
+	cpu("clock")
 	r.Extra["observable_through_all_log_level"] = w.observed.Load()
 	r.Extra["positive_controls"] = w.controls.Load()
 	r.Extra["positive_controls_passed"] = w.controlsOK.Load()
